@@ -61,6 +61,8 @@ type opData struct {
 	split bool
 	// via: the EVM transaction is addressed to another contract that calls the bound one
 	via bool
+	// rawTo: the receiver string the contract event carries, when it is not an account address of the chain
+	rawTo string
 }
 
 // Driver implements mc.Driver.
@@ -170,6 +172,10 @@ func (d *Driver) Enabled(e *mc.Env, s *mc.State) []mc.Op {
 	add("hook-to-native(B,1+2,A,one-receipt)", opData{kind: "hook", who: "B", to: "A", amt: sdkmath.NewInt(3), split: true})
 	// the contract's swapToNative reached through another contract (a router, a wallet contract): the transaction
 	// is addressed to that contract, the event is the bound contract's all the same
+	// the contract hands over whatever string its caller named as receiver; one that is no account address of the
+	// chain cannot be paid: the conversion must fail as a whole (the contract side has already burned)
+	add("!hook-to-native(B,2,receiver=0x-hex-of-A)", opData{kind: "hook", who: "B", to: "A", amt: sdkmath.NewInt(2), rawTo: eth("A").Hex()})
+	add("!hook-to-native(B,2,receiver=free-text)", opData{kind: "hook", who: "B", to: "A", amt: sdkmath.NewInt(2), rawTo: "my wallet"})
 	add("hook-to-native(B,2,A,via-other-contract)", opData{kind: "hook", who: "B", to: "A", amt: sdkmath.NewInt(2), via: true})
 	// governance switches the ERC20 feature off / on: conversions attempted while it is off must fail as a whole
 	add("erc20-off", opData{kind: "switch", rel: "off"})
@@ -290,7 +296,11 @@ func (d *Driver) Apply(e *mc.Env, s *mc.State, op mc.Op) []mc.Finding {
 				}
 				receipt := &ethtypes.Receipt{}
 				for _, pa := range parts {
-					data, err := ev.Inputs.Pack(eth(od.who), mc.Addr(od.to).String(), pa)
+					rcv := mc.Addr(od.to).String()
+					if od.rawTo != "" {
+						rcv = od.rawTo
+					}
+					data, err := ev.Inputs.Pack(eth(od.who), rcv, pa)
 					if err != nil {
 						return nil, err
 					}
@@ -311,6 +321,13 @@ func (d *Driver) Apply(e *mc.Env, s *mc.State, op mc.Op) []mc.Finding {
 		if !out.OK {
 			if !same(pre, post) {
 				fs = append(fs, mc.F("C10/failed-conversion-changed-state/"+od.kind, "%s failed (%s) but ledgers changed: before %s after %s", op.Name, out, pre, post))
+			}
+			return fs
+		}
+		if od.rawTo != "" {
+			fs = append(fs, mc.F("C10/conversion-to-unpayable-receiver-accepted/hook", "%s succeeded: the ERC20 side burned %s, the receiver %q is no account of the chain; before %s after %s", op.Name, amt, od.rawTo, pre, post))
+			if new(big.Int).Add(pre.supN, pre.supE).Cmp(new(big.Int).Add(post.supN, post.supE)) != 0 {
+				fs = append(fs, mc.F("C10/total-supply-not-conserved/hook", "%s: native+erc20 supply %s -> %s", op.Name, new(big.Int).Add(pre.supN, pre.supE), new(big.Int).Add(post.supN, post.supE)))
 			}
 			return fs
 		}
